@@ -7,6 +7,7 @@ import (
 	"testing"
 
 	"github.com/sarchlab/akita/v4/sim"
+	"github.com/sarchlab/mgpusim/v4/amd/driver"
 	"github.com/sarchlab/mgpusim/v4/amd/protocol"
 
 	"verif/dsim/choice"
@@ -21,7 +22,7 @@ func init() { Registry["C18"] = C18 }
 func C18Meta() harness.Meta {
 	return harness.Meta{
 		Rule: "each run = one seeded (workload, inputs, GPU set, spreading, platform, event order): the same workload with the same inputs is executed twice in one process - on one GPU, and on 2 or 4 GPUs either as a unified device (the driver spreads pages and work-groups) or as plain GPUs with the buffers distributed page-wise over a drawn subset of the GPUs (Driver.Distribute) and the kernel launched on a drawn GPU, or split by the workload itself over all GPUs - on emulation platforms and on timing platforms (shipped R9 Nano multi-GPU platform, or the reduced one with drawn shader arrays / CUs / L2 / DRAM banks; same-time events permuted in half of the timing runs; real RDMA engines, PCIe model, caches). " +
-			"Workloads: a generated gather kernel (kasm) whose reads reach the whole input buffer, so that with spread buffers most reads and many writes are remote, and the shipped element-wise workloads of the table at sizes admissible for every GPU count. Oracle: every live device buffer after the multi-GPU run is byte-identical to the one-GPU run (compared in allocation order when both runs allocate the same buffers; the gather kernel additionally against its Go model). " +
+			"Workloads: a generated gather kernel (kasm) whose reads reach the whole input buffer, so that with spread buffers most reads and many writes are remote, its input uploaded in chunks of a drawn length (copies that start inside a page and cross into a frame on another GPU), and the shipped element-wise workloads of the table at sizes admissible for every GPU count. Oracle: every live device buffer after the multi-GPU run is byte-identical to the one-GPU run (compared in allocation order when both runs allocate the same buffers; the gather kernel additionally against its Go model). " +
 			"non-trivial = remote pages existed (more than one GPU held pages of a buffer the kernel touched) ; distinct = distinct (configuration digest, event-order digest)",
 		RealComponents: []string{"amd/driver (Distribute, unified devices, work-group splitting, memory copies to spread buffers)", "emulation platforms with 1, 2 and 4 GPUs", "timing platforms with 1, 2 and 4 GPUs: rdma.Comp, PCIe switches, L1/L2 caches, TLBs, MMU, DRAM, command processors, CUs", "shipped element-wise workloads"},
 		StubComponents: []string{"engine (SeededEngine)", "goroutine controller (canonical schedule)", "generated gather kernel (kasm)"},
@@ -99,6 +100,10 @@ func C18(t *testing.T, ch *choice.Source, opt harness.Options, env *Env) harness
 		c.Subset = append(c.Subset, g+1)
 	}
 	c.LaunchOn = 1 + ch.Intn(c.N, "launchon")
+	chunkWords := 1 + ch.Intn(3000, "chunkwords")
+	if lim := (1 << c.Log2N) / 24; chunkWords < lim {
+		chunkWords = lim + chunkWords%7 // at most about 24 copies per upload
+	}
 	inputSeed := int64(ch.Intn(1<<30, "inputseed"))
 	benchSeed := uint64(ch.Intn(1<<30, "benchseed")) + 1
 	switch c.Mode {
@@ -153,7 +158,12 @@ func C18(t *testing.T, ch *choice.Source, opt harness.Options, env *Env) harness
 				d.Distribute(ctx, dOut, uint64(n*4), c.Subset)
 				d.SelectGPU(ctx, c.LaunchOn)
 			}
-			d.MemCopyH2D(ctx, dIn, in)
+			// the input is uploaded in chunks of a drawn length, so that copies start inside pages and
+			// cross page boundaries whose physical frames are on different GPUs
+			for off := 0; off < n; off += chunkWords {
+				end := min(off+chunkWords, n)
+				d.MemCopyH2D(ctx, driver.Ptr(uint64(dIn)+uint64(off*4)), in[off:end])
+			}
 			d.MemCopyH2D(ctx, dOut, make([]uint32, n))
 			outPtr = uint64(dOut)
 			args := kasm.GatherArgs{In: uint64(dIn), Out: uint64(dOut), Mask: uint32(n - 1), K: k, C: cc}
